@@ -493,6 +493,25 @@ func (st *State) Compl(x *IntV) *IntV {
 func (st *State) ShiftR(x *IntV, k int) *IntV {
 	r := st.Shift(token.SHR, x, k)
 	xl, xh := st.Range(x)
+	// exact quotient of an affine value: x = c0 + 2^k * (sum ci' si) with 0 <= c0 and x >= 0 gives
+	// x >> k = (c0 >> k) + sum ci' si, because the multiple of 2^k contributes nothing to the dropped bits
+	if _, isC := st.ConstOf(r); !isC && x.T != nil && len(x.T.Syms) > 0 && xl >= 0 && k > 0 && k < 62 && x.T.C >= 0 {
+		m := int64(1) << uint(k)
+		all := true
+		for _, cf := range x.T.Coefs {
+			if cf%m != 0 {
+				all = false
+			}
+		}
+		if all {
+			t := &Term{C: x.T.C >> uint(k)}
+			for i, sy := range x.T.Syms {
+				t.Syms = append(t.Syms, sy)
+				t.Coefs = append(t.Coefs, x.T.Coefs[i]/m)
+			}
+			return &IntV{W: x.W, Signed: x.Signed, T: t, Bits: r.Bits}
+		}
+	}
 	if _, isC := st.ConstOf(r); !isC && r.Bits != nil && xl >= 0 && k < 63 {
 		t := st.termOf0(r)
 		if sy, ok := t.SingleSym(); ok && sy.DefBits != nil {
